@@ -27,7 +27,7 @@ import z3
 
 from . import env
 from .usyms import sym_units, sym_constants, float_units, float_constants, BASE, CODATA
-from .zrun import explore_and_prove, uf_prover, eq_term, pyrepr
+from .zrun import twin_verdict, explore_and_prove, uf_prover, eq_term, pyrepr
 from .zsym import Real, Int, Const, SymNum, ZBackend, lift, model_value, SymTypeError
 
 BAND = Fraction(1, 10 ** 9)
@@ -260,7 +260,7 @@ def task_case(modname, casename, kinds=("units", "formula", "warn"), deadline_s=
         except Exception:
             fns.append(tname)
     res = dict(engine="Z", functions=fns, obligations=o.obligations, discharged=o.discharged, violations=[], inconclusive=list(o.inconclusive),
-               queries=o.queries, paths=o.paths, solver_s=o.solver_s, twin="violated" if (ot.failed or ot.obligations == 0) else "passed",
+               queries=o.queries, paths=o.paths, solver_s=o.solver_s, twin=("violated" if ot.obligations == 0 else twin_verdict(ot)),
                bounds="vars %s; all positive base-unit scales; kinds=%s" % (case["vars"], list(kinds)),
                sample={"case": casename, "plain": case["plain"], "units": case.get("units"), "unit": case.get("unit"),
                        "formula": case.get("formula"), "warn": case.get("warn")})
